@@ -4,6 +4,7 @@
 -/
 import SymfcModel.Model.Inst
 import SymfcModel.Lemmas.Chain
+import SymfcModel.Lemmas.Design
 namespace Symfc.C05
 open Symfc
 
@@ -40,5 +41,33 @@ theorem reshape_output_rows (N nx : Nat) :
     Gen.chainO2.outRows.eval N nx = 3 * N ∧ Gen.chainO3.outRows.eval N nx = 9 * N ^ 2 ∧
     Gen.chainO4.outRows.eval N nx = 27 * N ^ 3 :=
   ⟨chainO2_outRows N nx, chainO3_outRows N nx, chainO4_outRows N nx⟩
+
+/-- C05.a, THE DESIGN MATRIX IS THE TAYLOR FORCE MODEL: for every cell size N ≥ 1, every order k ∈ {2,3,4}, every
+    atom batch [bi, ei), every compression matrix `cc` (columns < nx) and every list of displacement snapshots, the
+    entry (snapshot s, atom bi+il, component a; column x) of the matrix the code builds — rows of `cc` expanded through
+    the class index, pushed through the generated divmod chain, multiplied with displacement monomials — equals
+    `const · Σ_{(j,b),(k,c),…} cc[class(i,j,k,…)·3^k + (a,b,c,…), x] · u_{jb} u_{kc} …`. -/
+theorem design_matrix_is_the_taylor_expansion (c : Cell) (od : OrderData) (hk : od.k = 2 ∨ od.k = 3 ∨ od.k = 4)
+    (hch : od.chain = chainFor od.k) (hN : 1 ≤ c.N)
+    (hcol : ∀ row, ∀ cv ∈ od.cc.getD row [], cv.1 < od.nx)
+    (us : List (Array Int)) (bi ei : Nat) :
+    (designBlockOp c od us bi ei).size = us.length * (ei - bi) * 3 ∧
+    ∀ s il a, s < us.length → il < ei - bi → a < 3 →
+      ((designBlockOp c od us bi ei).getD (s * ((ei - bi) * 3) + il * 3 + a) #[]).size = od.nx ∧
+      ∀ x, x < od.nx →
+        ((designBlockOp c od us bi ei).getD (s * ((ei - bi) * 3) + il * 3 + a) #[]).getD x 0
+          = designEntrySpec c od (us.getD s #[]) (bi + il) a x :=
+  D1 c od hk hch hN hcol us bi ei
+
+/-- C05.a / C06.a: the normal equations accumulated by the code over ANY atom-batch size and ANY snapshot-batch size,
+    for ANY list of fitted orders (joint design matrix `[X₂ | X₃ | X₄]`), are exactly the Gram matrix and right-hand
+    side of the full Taylor design matrix (rows = all (snapshot, atom, component)). -/
+theorem accumulated_normal_equations_are_those_of_the_taylor_model (c : Cell) (ods : List OrderData)
+    (hods : ∀ od ∈ ods, (od.k = 2 ∨ od.k = 3 ∨ od.k = 4) ∧ od.chain = chainFor od.k ∧
+      ∀ row, ∀ cv ∈ od.cc.getD row [], cv.1 < od.nx)
+    (hN : 1 ≤ c.N) (us fs : List (Array Int)) (hfs : fs.length = us.length) (hS : 0 < us.length)
+    (atomBatch snapBatch : Nat) (hba : 0 < atomBatch) (hbs : 0 < snapBatch) :
+    normalEqOp c ods us fs atomBatch snapBatch = some (normalEqSpec c ods us fs) :=
+  D2 c ods hods hN us fs hfs hS atomBatch snapBatch hba hbs
 
 end Symfc.C05
